@@ -444,8 +444,18 @@ impl PqMapper<RelationExpr, RelationExpr, (), ()> for SortingInference<'_> {
 fn assign_names(query: SqlQuery, ctx: &mut Context) -> SqlQuery {
     // generate CTE names, make sure they don't clash
     let decls = ctx.anchor.table_decls.values_mut();
+    let mut decls = decls.sorted_by_key(|d| d.id.get()).collect_vec();
     let mut names = HashSet::new();
-    for decl in decls.sorted_by_key(|d| d.id.get()) {
+    // names that are given come first, so that a generated name cannot take the name of a table
+    // of the query (of two equal names, the first keeps it)
+    for decl in decls.iter_mut() {
+        if let Some(name) = &decl.name {
+            if !names.insert(name.clone()) {
+                decl.name = None;
+            }
+        }
+    }
+    for decl in decls.iter_mut().filter(|d| d.name.is_none()) {
         while decl.name.is_none() || names.contains(decl.name.as_ref().unwrap()) {
             decl.name = Some(Ident::from_name(ctx.anchor.table_name.gen()));
         }
